@@ -32,6 +32,8 @@ def hscript(ops):
             out += [9, op[1]]
         elif op[0] == "read?":
             out += [10, op[1]]
+        elif op[0] == "poll1":
+            out += [11, op[1]]
     return out
 
 
